@@ -14,7 +14,12 @@
      left-to-right sum);
    * collapse: edges bit-exact (min, next-after max / +1), every point inside
      [low, high), mean within 1e-12 (relative to the mean magnitude) of the exact mean;
-   * filter_in_phase: binary64 instance bit-exact, exact instance when qsame. *)
+   * filter_in_phase: binary64 instance bit-exact, exact instance when qsame;
+   * float32 data (Corr32.v: also float32 coordinates): the guard band is 5e-5 and the
+     mean tolerance (n + 2) * 2^-24 of the mean magnitude (any summation order in binary32);
+   * CaseColF / CaseColZ: collapse_plateaus called (again) on a plateau array whose
+     CURRENT content (after in-place updates) is [bins]: same comparison of the edges,
+     the interval and the mean (call histories). *)
 From Coq Require Import List ZArith QArith Qabs String Bool PrimFloat.
 From Verif.Sem Require Import Corr.
 From Verif.C19 Require Import Carrier Model.
@@ -30,6 +35,8 @@ Arguments ObsBins {Cd}.
 Inductive case :=
 | CaseF (xs ys : list float) (atol : float) (min_n : Z) (qsame : bool) (o : pobs float)
 | CaseZ (xs : list Z) (ys : list float) (atol : float) (min_n : Z) (qsame : bool) (o : pobs Z)
+| CaseColF (v32 : bool) (bins : list (list (float * float))) (collapsed : list (float * float * float))
+| CaseColZ (v32 : bool) (bins : list (list (Z * float))) (collapsed : list (float * Z * Z))
 | CaseP (freqs : list float) (ref rtol : float) (qsame : bool) (kept : list (Z * float)).
 
 Definition qid (q : Q) : Q := q.
@@ -67,15 +74,19 @@ Definition qmean (l : list float) : Q * Q :=
   let n := inject_Z (Z.of_nat (List.length l)) in
   (fold_left (fun a x => Qred (a + f2q0 x)) l 0 / n,
    fold_left (fun a x => Qred (a + Qabs (f2q0 x))) l 0 / n).
-Definition mean_ok (vals : list float) (m : float) : bool :=
+(* mtol: the admitted relative error of a mean of n values *)
+Definition mtol64 (n : nat) : Q := 1 # 1000000000000.
+Definition mtol32 (n : nat) : Q := inject_Z (Z.of_nat n + 2) / inject_Z (2 ^ 24).
+Definition mean_ok (mtol : nat -> Q) (vals : list float) (m : float) : bool :=
   match f2q m with
   | None => false
-  | Some mq => let '(e, mag) := qmean vals in Qle_bool (Qabs (mq - e)) ((1 # 1000000000000) * mag)
+  | Some mq => let '(e, mag) := qmean vals in Qle_bool (Qabs (mq - e)) (mtol (List.length vals) * mag)
   end.
 
-Definition eps : Q := 1 # 1000000000.
+Definition eps64 : Q := 1 # 1000000000.
+Definition eps32 : Q := 1 # 20000.
 (* guard on the model's own bins, exact rationals: (must raise, must return) *)
-Definition guard_band (atol : Q) (bins : list (list (Q * Q))) : bool * bool :=
+Definition guard_band (eps : Q) (atol : Q) (bins : list (list (Q * Q))) : bool * bool :=
   (negb (match check_total QO (atol * (1 + eps)) bins with [] => true | _ => false end),
    match check_total QO (atol * (1 - eps)) bins with [] => true | _ => false end).
 
@@ -86,6 +97,8 @@ Variable ceq : C o -> C o -> bool.
 Variable cfin : C o -> bool.
 Variable vin : float -> V o.
 Variable vout : V o -> float.
+Variable eps : Q.                               (* guard band *)
+Variable mtol : nat -> Q.                       (* mean tolerance *)
 
 Definition collapse_cmp (mbins : list (list (C o * V o))) (coll : list (float * C o * C o)) : string :=
   (fix go (bs : list (list (C o * V o))) (cs : list (float * C o * C o)) : string :=
@@ -99,7 +112,7 @@ Definition collapse_cmp (mbins : list (list (C o * V o))) (coll : list (float * 
              else if negb (ceq hi mhi) then "collapse-high"
              else if negb (forallb (fun p => cleb o lo (fst p) && negb (cleb o hi (fst p))) b)
              then "collapse-interval"
-             else if negb (mean_ok (map (fun p => vout (snd p)) b) m) then "collapse-mean"
+             else if negb (mean_ok mtol (map (fun p => vout (snd p)) b) m) then "collapse-mean"
              else go bs' cs'
          end
      | _, _ => "collapse-count"
@@ -113,7 +126,7 @@ Definition check_plateau (xs : list (C o)) (ys : list float) (atol : float) (min
     let pts := combine xs (map vin ys) in
     let mb := plateau_bins (flags o (vin atol) pts) min_n pts in
     let qb := map (map (fun p => (c2q (fst p), f2q0 (vout (snd p))))) mb in
-    let '(must_raise, must_return) := guard_band (f2q0 atol) qb in
+    let '(must_raise, must_return) := guard_band eps (f2q0 atol) qb in
     match ob with
     | ObsErr cls =>
         if negb (String.eqb cls "RuntimeError") then "impl-raises-" ++ cls
@@ -129,6 +142,11 @@ Definition check_plateau (xs : list (C o)) (ys : list float) (atol : float) (min
             then "exact-rational-structure"
             else collapse_cmp mb coll
     end.
+
+(* collapse_plateaus alone, on bins given by their current content *)
+Definition check_collapse (bins : list (list (C o * float))) (coll : list (float * C o * C o)) : string :=
+  if negb (forallb (forallb (fun p => cfin (fst p) && f_finite (snd p))) bins) then "non-finite-input"
+  else collapse_cmp (map (map (fun p => (fst p, vin (snd p)))) bins) coll.
 End Plateau.
 
 Definition f2f (x : float) : float := x.
@@ -148,8 +166,12 @@ Definition check_phase (freqs : list float) (ref rtol : float) (qsame : bool) (k
 Definition check (c : case) : string :=
   match c with
   | CaseF xs ys atol min_n qsame ob =>
-      check_plateau FF f2q0 f_same f_finite f2f f2f xs ys atol min_n qsame ob
+      check_plateau FF f2q0 f_same f_finite f2f f2f eps64 mtol64 xs ys atol min_n qsame ob
   | CaseZ xs ys atol min_n qsame ob =>
-      check_plateau ZF inject_Z Z.eqb (fun _ => true) f2f f2f xs ys atol min_n qsame ob
+      check_plateau ZF inject_Z Z.eqb (fun _ => true) f2f f2f eps64 mtol64 xs ys atol min_n qsame ob
+  | CaseColF v32 bins coll =>
+      check_collapse FF f_same f_finite f2f f2f (if v32 then mtol32 else mtol64) bins coll
+  | CaseColZ v32 bins coll =>
+      check_collapse ZF Z.eqb (fun _ => true) f2f f2f (if v32 then mtol32 else mtol64) bins coll
   | CaseP freqs ref rtol qsame kept => check_phase freqs ref rtol qsame kept
   end.
